@@ -26,7 +26,7 @@ func init() {
 			ruleL1(c)
 			ruleL2(c)
 		},
-		explanation: "Decides the ownership-ledger discipline behind conflict detection: every write of a plugin-supplied value into the reply accumulator, the request view or the staged update copy is dominated by the success edge of a claim (or by a claim-all loop over the collection written); claim functions and items are in bijection across all merge functions; every claim is exclusive (stores the owner only into an empty slot, otherwise returns the non-nil conflict error) and uses a slot of its own; the ledger is created once per result and persisted on the miss path; every error of the merge family is tested and returned up to the exported request methods, which return (nil, err); claims are keyed by the target container's id and by the key field of the element written; claims are controlled by the plugin's own response; all of this runs under the adaptation lock with a per-request result that does not escape. The key of every keyed claim is known not to be a removal marker where the claim runs.",
+		explanation: "Decides the ownership-ledger discipline behind conflict detection: every write of a plugin-supplied value into the reply accumulator, the request view or the staged update copy is dominated by the success edge of a claim (or by a claim-all loop over the collection written); claim functions and items are in bijection across all merge functions; every claim is exclusive (stores the owner only into an empty slot, otherwise returns the non-nil conflict error) and uses a slot of its own; the ledger is created once per result and persisted on the miss path; every error of the merge family is tested and returned up to the exported request methods, which return (nil, err); claims are keyed by the target container's id and by the key field of the element written; claims are controlled by the plugin's own response; all of this runs under the adaptation lock with a per-request result that does not escape. The key of every keyed claim is known not to be a removal marker where the claim runs. A merge function that claims never returns success early under a comparison of values.",
 		notDecided: []string{
 			"that the set of owned items is the set a runtime cares about",
 			"string equality semantics of keys (e.g. un-normalised mount paths)",
@@ -1016,6 +1016,29 @@ func typeOfElemT(t types.Type) string {
 func (ma *mergeAnalysis) ruleR8(c *Ctx) {
 	c.rule("R8", "claims come from the plugin's response only: every claim call is controlled by a presence test or range over the plugin's own value of the very item claimed, and by no condition derived from the accumulated reply, the request view, the staged copy or the ledger", 49)
 	ord := map[string]int{}
+	// no way around the claims: a merge function that claims at all leaves early with success only because
+	// something is absent (nil, empty, not marked), never because of what a value is
+	for _, mf := range ma.fns {
+		if len(mf.claims) == 0 {
+			continue
+		}
+		n := 0
+		for _, r := range returnsOf(mf.fn) {
+			nres := len(r.Results)
+			if nres == 0 || !isNilConst(r.Results[nres-1]) {
+				continue
+			}
+			for _, cd := range controls(r.Block()) {
+				why := mf.nonPresenceCond(cd)
+				if why == "" || !strings.Contains(why, "comparison of the plugin's value with another value") {
+					continue
+				}
+				n++
+				c.violate("R8", fmt.Sprintf("%s/early-success#%d", mf.fn.Name(), n), r.Pos(), mf.fn.Name()+" returns success early only for absent input",
+					"this successful return skips the claims under "+why+": values equal to what is already there are accepted without a claim, so a second plugin setting the same item to the same value is not refused")
+			}
+		}
+	}
 	for _, mf := range ma.fns {
 		distinct := map[string]bool{}
 		for _, cc := range mf.claims {
@@ -1222,6 +1245,12 @@ func (mf *mergeFn) nonPresenceCond(cd Cond) string {
 	case *ssa.UnOp:
 		return ""
 	case *ssa.Call:
+		if g := mf.m.callee(x.Common()); g != nil {
+			switch g.String() {
+			case "google.golang.org/protobuf/proto.Equal", "reflect.DeepEqual", "bytes.Equal", "strings.EqualFold", "maps.Equal", "slices.Equal":
+				return "a comparison of the plugin's value with another value (" + g.Name() + ")"
+			}
+		}
 		return "" // predicate call (isX)
 	case *ssa.BinOp:
 		// slice range loops: i < len(xs)
